@@ -443,7 +443,7 @@ def optimize_log_lbfgsb(p0, data, model_func, pts,
     outputs = scipy.optimize.fmin_l_bfgs_b(_object_func_log, 
                                            numpy.log(p0), bounds = bounds,
                                            epsilon=epsilon, args = args,
-                                           iprint = -1, pgtol=pgtol,
+                                           pgtol=pgtol,
                                            maxfun=maxiter, approx_grad=True)
     xopt, fopt, info_dict = outputs
 
@@ -1020,7 +1020,7 @@ def optimize_lbfgsb(p0, data, model_func, pts,
     outputs = scipy.optimize.fmin_l_bfgs_b(_object_func, 
                                            numpy.log(p0), bounds=bounds,
                                            epsilon=epsilon, args=args,
-                                           iprint=-1, pgtol=pgtol,
+                                           pgtol=pgtol,
                                            maxfun=maxiter, approx_grad=True)
     xopt, fopt, info_dict = outputs
 
